@@ -16,11 +16,15 @@ UNDECIDED = ['byte-level equality of arbitrary field contents', 'EndTxnResp (not
 ASSUMPTIONS = []
 
 def inline_policy(c):
-    return c.endswith('core::default::Default>::default') or c in ('ldap3::controls_impl::read_entry::from_read_entry',) \
-        or 'From<ldap3::controls_impl::content_sync::RefreshMode> for i64' in c
+    """Default impls and every function of the control / exop modules themselves (private helpers, integer conversions of their
+    enums) are evaluated interprocedurally; the filter compiler is not (the spec names its call)."""
+    return c.endswith('core::default::Default>::default') or 'ldap3::controls_impl::' in c or 'ldap3::exop_impl::' in c
 
-def F(p, *names):
-    return field_of(param(p), *names)
+def any_param(t, env=None):
+    """the (single) parameter of the conversion / parser, whatever it is called"""
+    return strip(t)[0] == 'param'
+def F(_p, *names):
+    return field_of(any_param, *names)
 def some_of(pred):
     return lambda t, env: t[0] == 'variant' and t[2] == 'Some' and t[3] == 0 and pred(t[1], env)
 def is_some_pc(pred):
@@ -49,10 +53,11 @@ def known_bool(pred):
         return False
     return f
 def sync_mode(t, env):
-    for a, tr in env['pc']:
-        if a[0] == 'is' and a[2] == 'RefreshMode::RefreshOnly':
-            return t == ('lit', 1 if tr else 3)        # RFC 4533: refreshOnly (1), refreshAndPersist (3)
-    return False
+    """RFC 4533: mode ENUMERATED { refreshOnly (1), refreshAndPersist (3) }, selected by the request's `mode` field (whichever
+    variant the code tests for)"""
+    import sem
+    only = sem.variant_truth(env['pc'], lambda x: F('sr', 'mode')(x, env), 'RefreshMode::RefreshOnly', ['RefreshMode::RefreshOnly', 'RefreshMode::RefreshAndPersist'])
+    return only is not None and t == ('lit', 1 if only else 3)
 
 RAW, NONE = 'raw', 'none'
 ENCODERS = [
@@ -163,15 +168,15 @@ def run(ctx):
         ok = len(st) == 1
         if ok:
             fl = {x['name']: x['e'] for x in st[0]['fields']}
-            ok = hirq.const_eval(f, fl['oid']) == oid and B.origin(fl['attrs']) == (('param', 'attrs'), ())
+            ok = hirq.const_eval(f, fl['oid']) == oid and B.origin(fl['attrs'])[0][0] == 'param' and B.origin(fl['attrs'])[1] == ()
         ctx.add('X.read-entry-oid', p.split('::')[-3], loc(B.root), ok, 'ReadEntry is not built with OID %s and the caller\'s attribute list' % oid)
     # CriticalControl
     cc = [p for p in f.hir if 'From<ldap3::controls_impl::CriticalControl<T>>' in p and p.endswith('::from')]
     B = hirq.Body(f, f.body(anchors.one('From<CriticalControl<T>>', cc)))
     ctx.analysed['bodies'].add(B.path)
     for o in absx.Interp(f, B).run():
-        base = ('field', ('param', 'cc'), 'control')
-        ok = o.val == base and o.st.heap.get(('field', base, 'crit')) == ('lit', True)
+        base = o.val
+        ok = F('cc', 'control')(base, {}) and o.st.heap.get(('field', base, 'crit')) == ('lit', True)
         ctx.add('X.critical-wrapper', 'CriticalControl', loc(B.root), ok, 'CriticalControl must encode the wrapped control and set crit = true')
 
     # ------------------------------------------------------------------ decoders
@@ -190,7 +195,7 @@ def run(ctx):
             and has_arg(size, 'match_id', lambda a: a == ('lit', 2)) and has_arg(size, 'match_class', lambda a: a == ('ctor', 'TagClass::Universal', ()))
         ctx.add('Y.paged.size', 'child 0', loc(B.root), ok, 'size is not parse_uint of child 0 as universal INTEGER primitive: %s' % absx.fmt(size)[:100])
         ctx.add('Y.paged.cookie', 'child 1', loc(B.root), nths(cookie) == [1] and 'expect_primitive' in calls_in(cookie), 'cookie is not the content of child 1')
-        ctx.add('Y.paged.input', 'val', loc(B.root), 'parse_tag' in calls_in(size) and absx.leaves(size, lambda x: x == ('param', 'val')) != [], 'the parsed bytes are not the control value')
+        ctx.add('Y.paged.input', 'val', loc(B.root), 'parse_tag' in calls_in(size) and absx.leaves(size, lambda x: x[0] == 'param') != [], 'the parsed bytes are not the control value')
     # SyncState
     B, outs = parse_paths('<ldap3::controls_impl::content_sync::SyncState as ' + CP)
     table = {}
@@ -225,7 +230,7 @@ def run(ctx):
         fl = dict(o.val[2])
         se = fl.get('attrs', ('unk',))[1] if fl.get('attrs', ('unk',))[0] == 'field' else None
         ok = se is not None and se[0] == 'call' and se[1] == 'ldap3::search::SearchEntry::construct' and fl.get('bin_attrs') == ('field', se, 'bin_attrs') and fl['attrs'][2] == 'attrs'
-        ok = ok and 'parse_tag' in calls_in(se) and absx.leaves(se, lambda x: x == ('param', 'val')) != []
+        ok = ok and 'parse_tag' in calls_in(se) and absx.leaves(se, lambda x: x[0] == 'param') != []
         ctx.add('Y.readentry', 'attrs/bin_attrs', loc(B.root), ok, 'ReadEntryResp is not SearchEntry::construct of the parsed value (C15 decides construct)')
     ctx.floor('Y', 'ReadEntryResp paths', len(outs), 1)
     # PasswordModifyResp
@@ -242,7 +247,7 @@ def run(ctx):
         for o in outs:
             g = dict(o.val[2]).get(field, ('unk',))
             fu = absx.leaves(g, lambda x: x[0] == 'call' and x[1].endswith('from_utf8'))
-            ok = len(fu) == 1 and fu[0][2][0] == ('param', 'val') and not nths(g)
+            ok = len(fu) == 1 and fu[0][2][0][0] == 'param' and not nths(g)
             ctx.add('Y.whole-value-utf8', path.split('::')[-3] if False else field, loc(B.root), ok, '%s is not the whole response value as UTF-8' % field)
         ctx.floor('Y', field + ' paths', len(outs), 1)
 
